@@ -2185,6 +2185,8 @@ class TargetRegistry:
         self._op_type_tree[op_name] = type_tree
         self._op_auto_map[op_name] = auto_func
 
+        self._type_cache = {}  # reset type cache
+
     def _register_builtin_ops(self):
         def _get_iterable_handler(type_obj):
             return iter if callable(getattr(type_obj, '__iter__', None)) else False
